@@ -316,7 +316,12 @@ def evaluate(S, pre, tmp, out, cfg, seen, seed):
             fail('C17.reparse', 'raises:%s:%s' % (res['parse'][0], name_class(s, S) if where else 'combination'),
                  'identifiers are legal and unique, yet the exported file is rejected by the reader (%s: %s); e.g. %s named %r' % (res['parse'] + (sc, s[:40])))
     for scope, rel, name, detail in res['names']:
-        fail('C17.reparse', '%s:%s:%s' % (rel, name_class(name, S), 'bundle' if scope in ('ports', 'nets') else 'other'), '%s scope, name %r (%d chars): %s' % (scope, name[:40], len(name), detail))
+        # classified by cause: in a bundle scope (ports, nets) a sibling that looks like a bus bit (x[3]) makes the reader's bus inference
+        # fold elements, which can cost ANOTHER sibling its name or identifier; such failures are filed under 'brackets' whatever the class
+        # of the name they hit
+        bundle = scope in ('ports', 'nets')
+        cls = 'brackets' if bundle and any(re.search(r'\[\d+\]$', s_) for s_ in S) else name_class(name, S)
+        fail('C17.reparse', '%s:%s:%s' % (rel, cls, 'bundle' if bundle else 'other'), '%s scope, name %r (%d chars): %s' % (scope, name[:40], len(name), detail))
 
 
 def case_of(seed, tier):
